@@ -27,6 +27,10 @@ use std::collections::{BTreeMap, BTreeSet};
 
 pub struct C07;
 
+/// sensitivity self-test knob: the reference leaves one position kind unrenamed; the engine must then report it
+static DUMP_RUN: std::sync::OnceLock<Option<u64>> = std::sync::OnceLock::new();
+static PERTURB: std::sync::OnceLock<Option<Pos>> = std::sync::OnceLock::new();
+
 mod hexbytes {
     use serde::{Deserialize, Deserializer, Serializer};
     pub fn serialize<S: Serializer>(b: &[u8], s: S) -> Result<S::Ok, S::Error> {
@@ -182,7 +186,8 @@ fn reference(hier: &[(String, EntryData)], entries: &[(String, EntryData)], map:
             }
         }
     }
-    let rho = Rho::new(map, supers);
+    let mut rho = Rho::new(map, supers);
+    rho.skip = *PERTURB.get_or_init(|| std::env::var("VERIF_C07_PERTURB").ok().and_then(|v| Pos::ALL.iter().copied().find(|p| p.probe() == v)));
     let mut expected = vec![];
     let mut unparseable = 0;
     let mut changed: BTreeMap<&'static str, u64> = BTreeMap::new();
@@ -436,8 +441,8 @@ impl Engine for C07 {
     }
     fn runs(&self, tier: Tier) -> u64 {
         match tier {
-            Tier::Quick => 24_000,
-            Tier::Thorough => 400_000,
+            Tier::Quick => 40_000,
+            Tier::Thorough => 1_500_000,
         }
     }
 
@@ -555,6 +560,13 @@ impl Engine for C07 {
                     _ => Fault::SeekFail { at_call: f.below(6 + 3 * p.entries.len() as u64) as u32 },
                 };
                 p.io.faults.push(fault);
+            }
+        }
+        // debugging aid: VERIF_C07_DUMP_RUN=<run index> writes that run's plan as a replay file
+        if let Some(want) = DUMP_RUN.get_or_init(|| std::env::var("VERIF_C07_DUMP_RUN").ok().and_then(|v| v.parse::<u64>().ok())) {
+            if *want == _run {
+                let file = json!({"property": "C07", "run": _run, "identity": "", "plan": p});
+                let _ = std::fs::write(format!("/tmp/C07-run-{_run}.json"), serde_json::to_string(&file).unwrap_or_default());
             }
         }
         p
@@ -812,7 +824,7 @@ impl Engine for C07 {
             "positions the reference renames although remap.rs currently does not (reported as findings): invokedynamic / constant-dynamic descriptors, enum constants in annotations (a field reference: owner and descriptor from type_desc), uses/provides/main-class of a module, generic signatures (every class name of a class type is looked up in the class table)".into(),
             "positions deliberately NOT renamed by the reference because the remapper has no answer for them: invokedynamic / constant-dynamic names, annotation element names, method parameter names, local variable names, SourceFile, module / package names".into(),
             "tolerances (either answer accepted): a signature containing a `.Inner` class-type suffix or not parseable as a JVMS 4.7.9.1 signature is not compared when it differs; a record component name may stay or take the new name of the field it shares name and descriptor with; InnerClasses.inner_name may stay or become the simple name of the renamed inner class".into(),
-            "every difference between output and reference is reported (component-wise, not first-only); a difference that duke's own read_class+write_class round trip of the same input class (no renaming) already shows at the same path is filed under `rw-loss.<path>` (owned by C01/C02: frames dropped on write, local variables and parameter annotations dropped on read), all others under `remap.<path>`".into(),
+            "every difference between output and reference is reported (component-wise, not first-only); a difference that duke's own read_class+write_class round trip of the same input class (no renaming) already shows at the same path is filed under `rw-loss.<path>` (owned by C01/C02; at the time of writing: parameter annotations dropped on read, an empty Record attribute lost), all others under `remap.<path>`; the classification is recomputed against the current tree in every run, so a duke repair moves a path from rw-loss to exact comparison automatically".into(),
             "mapping sets are injective on class names and never map two entries of a jar to one name; <init>/<clinit> are never renamed; hierarchies are acyclic".into(),
             "T2: Err is accepted; Ok on intact delivered bytes must equal the plain-medium output; Ok on altered delivered bytes is compared with the reference over the delivered bytes (output names then follow the ENTRY names), skipping paths already reported at T0 for the same workload; a delivered class the reference parser refuses is counted (lenient_accept) and class contents are then not compared".into(),
             "no public API writes a ParsedJar to a caller-supplied Write+Seek sink (ParsedJar::write is private; to_mem writes to a Vec, put_to_file to a real file), so the sink side of DESIGN's C07 entry (hook H3) is not exercised".into(),
